@@ -27,6 +27,17 @@ func (w *World) All() []Obj {
 
 	// voteproofs
 	add("INITVoteproof", true, w.INITVoteproof(isaac.NewINITBallotFact(w.Point(), w.Hash(), w.Hash(), nil)))
+	// mixed votes: the minority vote first / in the middle / last (the majority has to be found wherever it is)
+	add("INITVoteproof/minority-first", true, w.INITVoteproofAt(isaac.NewINITBallotFact(w.Point(), w.Hash(), w.Hash(), nil), 0))
+	add("INITVoteproof/minority-middle", true, w.INITVoteproofAt(isaac.NewINITBallotFact(w.Point(), w.Hash(), w.Hash(), nil), 1+w.R.Intn(len(w.Locals)-2)))
+	add("INITVoteproof/minority-last", true, w.INITVoteproofAt(isaac.NewINITBallotFact(w.Point(), w.Hash(), w.Hash(), nil), len(w.Locals)-1))
+	add("ACCEPTVoteproof/minority-first", true, w.ACCEPTVoteproofAt(isaac.NewACCEPTBallotFact(w.Point(), w.Hash(), w.Hash(), nil), 0))
+	add("ACCEPTVoteproof/minority-last", true, w.ACCEPTVoteproofAt(isaac.NewACCEPTBallotFact(w.Point(), w.Hash(), w.Hash(), nil), len(w.Locals)-1))
+	{
+		ifact := isaac.NewINITBallotFact(w.Point(), w.Hash(), w.Hash(), nil)
+		afact := isaac.NewACCEPTBallotFact(ifact.Point().Point, ifact.Proposal(), w.Hash(), nil)
+		add("ACCEPTBallot/minority-first-vp", true, isaac.NewACCEPTBallot(w.INITVoteproofAt(ifact, 0), w.signACCEPT(afact), nil))
+	}
 	add("INITVoteproof/draw", true, w.INITVoteproofDraw(w.Point()))
 	add("ACCEPTVoteproof", true, w.ACCEPTVoteproof(isaac.NewACCEPTBallotFact(w.Point(), w.Hash(), w.Hash(), nil)))
 	add("ACCEPTVoteproof/draw", true, w.ACCEPTVoteproofDraw(w.Point()))
